@@ -758,6 +758,12 @@ def pncbo(op, ifile1, ifile2, coordkeys=None, verbose=0):
             outval = np.ma.masked_where(
                 np.ma.getmaskarray(outval),
                 np.ma.masked_invalid(np.asarray(np.ma.getdata(outval))))
+            if np.shape(outval) != tuple(in1var.shape):
+                raise ValueError(
+                    ('%s: result shape %s does not match the shape %s of ' +
+                     'dimensions %s') % (k, np.shape(outval),
+                                         tuple(in1var.shape),
+                                         in1var.dimensions))
             outvar = tmpfile.createVariable(
                 k, in1var.dtype.char, in1var.dimensions, fill_value=-999,
                 values=outval)
